@@ -116,6 +116,27 @@ impl Mempool {
             "add transaction if validates : {:?}",
             transaction.signature.to_hex()
         );
+        //
+        // fee, ATR and SPV transactions are created by block producers and lite-block
+        // servers, never submitted. issuance transactions only exist in the first block.
+        // golden tickets are kept apart and are added with add_golden_ticket
+        //
+        let submittable = match transaction.transaction_type {
+            TransactionType::Fee
+            | TransactionType::ATR
+            | TransactionType::SPV
+            | TransactionType::GoldenTicket => false,
+            TransactionType::Issuance => blockchain.get_latest_block_id() == 0,
+            _ => true,
+        };
+        if !submittable {
+            warn!(
+                "transaction : {:?} of type : {:?} cannot be submitted to the mempool",
+                transaction.signature.to_hex(),
+                transaction.transaction_type
+            );
+            return;
+        }
         let public_key;
         let tx_valid;
         {
